@@ -65,6 +65,12 @@ Verdict(ev) ==
       [] ev.e = "SubAxes"  -> SubAxesVerdict(ev)
       [] ev.e = "SubRange" -> SubRangeVerdict(ev)
       [] ev.e = "Std"      -> StdVerdict(ev)
+      \* all 65536 16-bit values once: bin i of an N-bin array holds the values p with floor(p * (N-1) / 65535) = i,
+      \* i.e. 65535 / (N-1) values each and the single value 65535 in the last bin (N - 1 divides 65535 for N = 16, 256, 65536)
+      [] ev.e = "ArrFull"  -> LET per == 65535 \div (ev.n - 1) IN
+                              IF Len(ev.counts) = ev.n /\ ev.counts[ev.n] = 1 /\ \A i \in 1..(ev.n - 1) : ev.counts[i] = per THEN {}
+                              ELSE {V("P_StdContainersAgree", "None", "array:all-16-bit-values:" \o ToString(ev.n),
+                                      [first_bad_bin |-> (CHOOSE i \in 1..ev.n : ev.counts[i] # (IF i = ev.n THEN 1 ELSE per)) - 1])}
       [] ev.e = "Fault"    -> {V("P_NoFault", "None", "driver", ev.kind)}
       [] ev.e = "End"      -> {}
       [] OTHER -> {V("UnknownEvent", "None", ev.e, l)}
